@@ -88,7 +88,39 @@ func c04Perturb(r *rand.Rand, u *gen.Universe, a ast.AuthContent) (string, ast.A
 	b := ast.AuthContent{Facts: a.Facts, Rules: a.Rules}
 	b.Checks = append([]ast.Check{}, a.Checks...)
 	b.Policies = append([]ast.Policy{}, a.Policies...)
-	switch r.Intn(7) {
+	switch r.Intn(9) {
+	case 7, 8:
+		// put a uniformly failing query IN FRONT of the queries of a check or a policy: its body
+		// matches an existing fact, its expression is an error on every substitution; it has no
+		// answer, so the remaining queries still decide
+		var src ast.Pred
+		if len(a.Facts) > 0 {
+			src = gen.Pick(r, a.Facts)
+		} else {
+			src = u.Fact(r)
+			b.Facts = append(append([]ast.Pred{}, b.Facts...), src)
+		}
+		body := ast.Pred{Name: src.Name, Terms: make([]ast.Term, len(src.Terms))}
+		for j, t := range src.Terms {
+			if r.Intn(2) == 0 {
+				body.Terms[j] = ast.Var(fmt.Sprintf("e%d", j))
+			} else {
+				body.Terms[j] = t
+			}
+		}
+		bad := ast.Rule{Head: ast.P("query"), Body: []ast.Pred{body}, Exprs: []ast.Expr{u.ErrExpr(r, nil)}}
+		if len(b.Checks) > 0 && (len(b.Policies) == 0 || r.Intn(2) == 0) {
+			i := r.Intn(len(b.Checks))
+			b.Checks[i] = ast.Check{Queries: append([]ast.Rule{bad}, b.Checks[i].Queries...)}
+			return "erroring-query-first-in-check", b
+		}
+		if len(b.Policies) > 0 {
+			i := r.Intn(len(b.Policies))
+			b.Policies[i] = ast.Policy{Allow: b.Policies[i].Allow, Queries: append([]ast.Rule{bad}, b.Policies[i].Queries...)}
+			return "erroring-query-first-in-policy", b
+		}
+		b.Checks = append(b.Checks, ast.Check{Queries: []ast.Rule{bad, {Head: ast.P("query"), Body: []ast.Pred{src}}}})
+		return "erroring-query-first-in-new-check", b
 	case 0:
 		for i := range b.Policies {
 			b.Policies[i].Allow = !b.Policies[i].Allow
@@ -136,6 +168,18 @@ func c04Run(c *core.C) {
 	r := c.R
 	for rep := 0; rep < 6; rep++ {
 		s := gen.NewScenario(r, 4, c04Opts)
+		if r.Intn(3) == 0 {
+			// the same inside the token: a uniformly failing query in front of a block's check
+			bi := r.Intn(len(s.Blocks))
+			facts := append(append([]ast.Pred{}, s.Blocks[0].Facts...), s.Blocks[bi].Facts...)
+			if len(s.Blocks[bi].Checks) > 0 && len(facts) > 0 {
+				src := gen.Pick(r, facts)
+				bad := ast.Rule{Head: ast.P("query"), Body: []ast.Pred{src}, Exprs: []ast.Expr{s.U.ErrExpr(r, nil)}}
+				ci := r.Intn(len(s.Blocks[bi].Checks))
+				s.Blocks[bi].Checks[ci] = ast.Check{Queries: append([]ast.Rule{bad}, s.Blocks[bi].Checks[ci].Queries...)}
+				c.Count("token_checks_with_erroring_first_query", 1)
+			}
+		}
 		label := fmt.Sprintf("c04-%d-%d", c.Idx, rep)
 		tok, err := buildScenarioToken(c.Seed, label, s.Blocks)
 		if err != nil {
